@@ -6,6 +6,17 @@ import os
 import sys
 import time
 from typing import Any, Dict, List, Optional
+import builtins as _builtins
+
+
+def print(*a, **k):       # noqa: A001 - a closed pipe on stdout must not change the exit status
+    try:
+        _builtins.print(*a, **k)
+    except BrokenPipeError:
+        try:
+            sys.stdout = open(os.devnull, "w")
+        except Exception:  # noqa
+            pass
 
 VERIF = os.path.dirname(os.path.dirname(os.path.abspath(__file__)))
 EVIDENCE_DIR = os.environ.get("VERIF_EVIDENCE_DIR") or os.path.join(VERIF, "evidence")
